@@ -153,6 +153,27 @@ def generate(rng, tier):
         c = e2e.make_case(g, toks, info, {"rt", "valid", "skip"}, tags=("e2e_quant_mesh" if is_mesh else "e2e_quant_pc",))
         c.mtag = e2e.model_support_tag
         cases.append(c)
+    # the raw (not entropy coded) storage of integer values: built-in compression off, no prediction, quantization
+    # bits chosen so that the largest stored value has its top bit exactly at / next to a byte boundary
+    for _ in range(240 if tier == "thorough" else 48):
+        is_mesh = rng.random() < 0.5
+        specs = [(G.POSITION, G.DT["f32"], 3, False, 0)]
+        if rng.random() < 0.5:
+            specs.append((G.GENERIC, G.DT["f32"], rng.randint(1, 4), False, 1))
+        g = G.rand_mesh(rng, rng.choice([6, 20]), specs=specs) if is_mesh else G.rand_point_cloud(rng, rng.choice([5, 40]), specs=specs)
+        if g.num_points == 0:
+            continue
+        toks = ["expert=1", "builtin=0", f"method={rng.choice([0, 0, 1])}", f"speed={rng.randint(0, 10)},{rng.randint(0, 10)}"]
+        info = {"expert": True, "req": {}, "track": False, "skip": None}
+        for i, a in enumerate(g.atts):
+            bits = rng.choice([7, 8, 9, 15, 16, 17, 23, 24, 25])
+            toks.append(f"q{i}={bits}")
+            info["req"][a.uid] = bits
+            if rng.random() < 0.7:
+                toks.append(f"p{i}=-2")
+        c = e2e.make_case(g, toks, info, {"rt", "valid"}, tags=("e2e_raw_storage",))
+        c.mtag = e2e.model_support_tag
+        cases.append(c)
     return cases
 
 
